@@ -468,8 +468,8 @@ class TexNode(object):
         """
 
         for arg in self.parent.args:
-            if self in arg.contents:
-                arg.remove(self)
+            if any(child is self.expr for child in arg._contents):
+                arg.remove(self.expr)
                 return
         self.parent.remove(self)
 
@@ -589,7 +589,7 @@ class TexNode(object):
         \end{itemize}
         """
         for arg in self.expr.args:
-            if child.expr in arg._contents:
+            if any(c is child.expr for c in arg._contents):
                 arg.insert(arg.remove(child.expr), *nodes)
                 return
         self.expr.insert(
@@ -841,8 +841,17 @@ class TexExpr(object):
         TexExpr('textbf', [])
         """
         self._assert_supports_contents()
-        index = self._contents.index(expr)
-        self._contents.remove(expr)
+        # an expression is looked up as the object itself: expressions compare
+        # equal whenever they print the same, and an identical twin earlier in
+        # the list must not be removed in its place
+        for index, content in enumerate(self._contents):
+            if content is expr:
+                break
+        else:
+            if isinstance(expr, TexExpr):
+                raise ValueError('%r is not in contents' % expr)
+            index = self._contents.index(expr)
+        del self._contents[index]
         return index
 
     def _supports_contents(self):
